@@ -259,6 +259,8 @@ def m_str(I, args, kw):
 def to_str(I, v):
     if isinstance(v, str):
         return v
+    if type(v).__name__ == 'UUID':
+        return str(v)
     if isinstance(v, enum.Enum):
         m = I.find_method(type(v), '__str__')
         if m is not None:
@@ -1837,14 +1839,12 @@ import uuid as _uuid
 
 @model(_uuid.uuid4)
 def m_uuid4(I, args, kw):
-    """a fresh identifier: an atom different from every atom seen so far on this path"""
+    """a fresh identifier: a CONCRETE reserved string '@uuid<n>' -- different from every other identifier by construction
+    (symbolic identifiers are assumed to lie outside the reserved range), so no solver reasoning is spent on freshness"""
     I.ctx.trust('uuid.uuid4(): a fresh string different from every identifier already in use and from every string constant of the program')
-    a = I.ctx.fresh('uuid', 'atom')
-    I.ctx.assume(a.t >= 0)          # never one of the string constants of the program (their codes are negative)
-    for b in I.ctx.atoms:
-        I.ctx.assume(a.t != b.t)
-    I.ctx.atoms.append(a)
-    return a
+    n = I.ctx.counters.get('@uuid', 0)
+    I.ctx.counters['@uuid'] = n + 1
+    return f'@uuid{n}'
 
 
 # =========================================================================================== with
